@@ -4,7 +4,7 @@ import json, os
 ROOT = os.path.dirname(os.path.dirname(os.path.abspath(__file__)))
 ALL = ["C%02d" % i for i in range(1, 21)]
 
-HOOK_COMMITS = []
+HOOK_COMMITS = ["c7257d0"]
 
 # id -> (category, text, design_ref, level_note, technique)
 CHECKS = {
@@ -70,6 +70,16 @@ CHECKS = {
          "6-rule table, <=3-5 pending activations, graph cut at 5-7 ops; default Salience strategy; termination cases are the "
          "45 (engine, rule-kind subset) combinations with one fact; TLC and the harness projection are trusted.",
          "TLA+ state-machine spec + liveness spec, TLC state-graph dump replayed on the real object; spec-enumerated termination cases run under a watchdog"),
+ "C20": ("model_checking",
+         "TLC checks on the bounded model, with the checkpoint written in the code's steps and a crash possible between any two, "
+         "that ids are distinct, a complete checkpoint holds exactly its own snapshot, restore reproduces it and an interrupted write "
+         "never touches an earlier complete checkpoint; the dumped sequential graph is replayed on a real file-backed StateStore under "
+         "an injected clock; and for every checkpoint of seeded histories every intermediate on-disk state the step structure allows "
+         "(every byte prefix included) is materialised and restored by a fresh store (fault enumeration).",
+         "DESIGN.md §4 C20",
+         "2-3 keys, 2 values, TTL 1 ms, retention 1-2, graph cut at 4-5 ops (simulated behaviours to 10); process-crash (prefix) "
+         "model, no fsync reordering; clock injected via the verif-hooks feature; TLC and the harness projection are trusted.",
+         "TLA+ spec with multi-step checkpoint and Crash action checked by TLC; state-graph replay on the real store; crash-state fault enumeration following the spec's step structure"),
 }
 
 NOT_YET = "check not built yet in this round (see DESIGN.md §9 build order); no claim is made"
